@@ -143,4 +143,69 @@ theorem count_startCalls (ms : List Mod) (m : Mod) (s : Nat) :
     simp
   rw [h1, startCalls_filter, count_stageCalls]
 
+/-! ### errors returned by `at_sim_end` callbacks -/
+
+theorem count_range_pair (x m : Mod) (k i : Nat) :
+    ((List.range k).map (fun j => (x, j))).count (m, i) = if x = m ∧ i < k then 1 else 0 := by
+  induction k with
+  | zero => simp
+  | succ k ih =>
+    rw [List.range_succ, List.map_append, List.count_append, ih]
+    simp only [List.map_cons, List.map_nil, List.count_cons, List.count_nil, beq_iff_eq,
+      Prod.mk.injEq, Nat.zero_add]
+    by_cases hx : x = m
+    · by_cases h1 : i < k
+      · have : ¬ k = i := by omega
+        have h2 : i < k + 1 := by omega
+        simp [hx, h1, this, h2]
+      · by_cases h3 : k = i
+        · subst h3; simp [hx]
+        · have : ¬ i < k + 1 := by omega
+          simp [hx, h1, h3, this]
+    · simp [hx]
+
+/-- every error of every module is reported exactly once (as often as the module is in the vector) -/
+theorem count_endErrors (fails : Mod → Nat) (ms : List Mod) (m : Mod) (i : Nat) :
+    (endErrors fails ms).count (m, i) = if i < fails m then ms.count m else 0 := by
+  unfold endErrors
+  induction ms with
+  | nil => simp
+  | cons x xs ih =>
+    rw [List.flatMap_cons, List.count_append, ih, count_range_pair, List.count_cons]
+    by_cases hx : x = m
+    · subst hx
+      by_cases hi : i < fails x
+      · simp [hi]; omega
+      · simp [hi]
+    · simp [hx]
+
+/-- the errors come module by module in vector order -/
+theorem endErrors_modules (fails : Mod → Nat) (ms : List Mod) :
+    (endErrors fails ms).map (·.1) = ms.flatMap (fun m => List.replicate (fails m) m) := by
+  unfold endErrors
+  induction ms with
+  | nil => rfl
+  | cons x xs ih =>
+    simp only [List.flatMap_cons, List.map_append, ih]
+    congr 1
+    generalize fails x = k
+    induction k with
+    | zero => rfl
+    | succ k ihk =>
+      rw [List.range_succ, List.map_append, List.map_append, ihk, List.replicate_succ']
+      rfl
+
+theorem endOk_iff (fails : Mod → Nat) (ms : List Mod) :
+    endOk fails ms = true ↔ ∀ m ∈ ms, fails m = 0 := by
+  unfold endOk endErrors
+  simp only [List.isEmpty_iff, List.flatMap_eq_nil_iff, List.map_eq_nil_iff]
+  constructor
+  · intro h m hm
+    have := h m hm
+    cases hk : fails m with
+    | zero => rfl
+    | succ k => rw [hk, List.range_succ] at this; simp at this
+  · intro h m hm
+    rw [h m hm]; rfl
+
 end ModTree
